@@ -658,12 +658,15 @@ def ensemble_sift(X, nensembles=4, ensemble_noise=.2, noise_mode='single',
 
     p.close()
 
-    if max_imfs is None:
-        max_imfs = res[0].shape[1]
+    # Ensemble members can return different numbers of IMFs (each is already
+    # limited to max_imfs by sift). A member which has run out of oscillatory
+    # content contributes zeros to the remaining modes.
+    max_imfs = max(r.shape[1] for r in res)
 
+    zeros = np.zeros((X.shape[0],))
     imfs = np.zeros((X.shape[0], max_imfs))
     for ii in range(max_imfs):
-        imfs[:, ii] = np.array([r[:, ii] for r in res]).mean(axis=0)
+        imfs[:, ii] = np.array([r[:, ii] if ii < r.shape[1] else zeros for r in res]).mean(axis=0)
 
     return imfs
 
